@@ -36,6 +36,13 @@ CLAIMS['C01'] = dict(cat='model_checking', ref='DESIGN.md §4 C01',
     note='trusted: translator (validated per run against the g++ build on solver-generated vectors), CBMC memory model, zero-initialised objects, allocation never fails here (C08 covers faults). '
          'Counterexamples are replayed on a native g++ build of the real code before being reported.')
 
+CLAIMS['C02'] = dict(cat='model_checking', ref='DESIGN.md §4 C02',
+    text='SAT decides the comparison kernels for all inputs (incl. byte strings living in distinct buffers), complete scans in both directions with a symbolic halting position on '
+         'every catalogue shape, and seek/scan_from/scan_range with fully symbolic 64-bit bounds against a sorted-list oracle on the shapes whose SAT instance fits (root leaf: quick; '
+         '3-leaf I4 and the minimal fall-off-an-inner-node shape: thorough).',
+    note='iterator stack replaced by the guarded fixed-capacity hook; write-only key_buffer stubbed; symbolic bounds on trees deeper than two inode levels are out of reach (stated in evidence); '
+         'uint64 keys only at tree level. Two defects found this way were repaired (known_findings.txt).')
+
 NOT_APPLICABLE = {
 }
 
